@@ -13,6 +13,9 @@ BodyOK(e) ==
     /\ e.bodyHeader = e.outlen         \* the Body header equals the stored byte length
     /\ e.bodyAccessor                  \* Body() returns the stored text
 TBody == IsEvent("Body") /\ BodyOK(Ev) /\ UNCHANGED dummy /\ Consume
-TraceNext == TBody
+(* setting the body of one message must not disturb the stored body of another (the texts of earlier messages are *)
+(* re-read after later SetBody calls)                                                                              *)
+TRecheck == IsEvent("Recheck") /\ Ev.stable /\ UNCHANGED dummy /\ Consume
+TraceNext == TBody \/ TRecheck
 TraceSpec == TraceInit /\ [][TraceNext]_<<dummy, tvars>>
 =============================================================================
